@@ -19,7 +19,7 @@ import (
 // (the range key over whichBlock or lastIndexArr) never subscripts fitArr. Indices of unknown
 // domain (parameters, counters) are not judged.
 func MX(rc *RC) {
-	rc.S.Declare("MX", "multi-iterator index domains: per-tensor tables (whichBlock, lastIndexArr) are never subscripted by a block number (whichBlock[..], range value over whichBlock, range key over fitArr) and the per-block table fitArr never by a tensor number (range key over whichBlock / lastIndexArr)", 4)
+	rc.S.Declare("MX", "multi-iterator index domains: per-tensor tables (whichBlock, lastIndexArr) are never subscripted by a block number (whichBlock[..], range value over whichBlock, range key over fitArr) and the per-block table fitArr never by a tensor number (range key over whichBlock / lastIndexArr)", 1)
 	perTensor := map[string]bool{"whichBlock": true, "lastIndexArr": true}
 	perBlock := map[string]bool{"fitArr": true}
 	fieldOf := func(e ast.Expr) string {
